@@ -395,4 +395,144 @@ theorem xlFold_created : ∀ (evs : List XlEvent) (s : XlState) (id : Nat), XlEv
       exact xlFold_mem evs _ id hm
     · exact xlFold_created evs _ id h
 
+
+/-! ## the first block message (coap_add_data_large_internal, lg_xmit branch) -/
+
+theorem setup_noreduce (maxSize tokOpts blk total : Nat) (sb : BlockB) (hsz : maxSize < 2 ^ 63)
+    (h1 : tokOpts + 2 ^ (blk + 4) ≤ maxSize) (h : setupBlockB maxSize tokOpts 0 blk total = some sb) :
+    sb.szx = blk ∧ sb.aszx = blk ∧ sb.chunk = 2 ^ (blk + 4) := by
+  unfold setupBlockB at h
+  have hpos : 0 < 2 ^ (blk + 4) := Nat.two_pow_pos _
+  have htm : tokOpts ≤ maxSize := by omega
+  have havail : (maxSize + 2 ^ 64 - tokOpts % 2 ^ 64) % 2 ^ 64 = maxSize - tokOpts := by omega
+  simp only [havail] at h
+  have hc : ¬ (maxSize - tokOpts < 2 ^ (blk + 4) ∧
+      (total + 2 ^ 64 - 0 * 2 ^ (blk + 4) % 2 ^ 32) % 2 ^ 64 ≥ maxSize - tokOpts) := by
+    intro hh; omega
+  rw [if_neg hc] at h
+  cases h
+  exact ⟨rfl, rfl, rfl⟩
+
+/-- the multi-block exit of `adlBody` (request or response path: `d`, `extra`, `tokOpts0` are parameters): the first
+message carries Block (0, M = 1, SZX = the lg_xmit's block size) and exactly one full block of payload, and the body is
+longer than that block -/
+theorem adlBody_first (maxSize tokLen base d tokOpts0 b2 length extra : Nat) (blk : Option Nat) (r : AdlRes)
+    (hms : maxSize < 2 ^ 62) (hlen : length < 2 ^ 32) (htok : tokOpts0 ≤ base + 43)
+    (hb2 : (16 : Int) ≤ adlAvail maxSize tokOpts0 tokLen → ((2 ^ (b2 + 4) : Nat) : Int) ≤ adlAvail maxSize tokOpts0 tokLen)
+    (h : adlBody maxSize tokLen base d tokOpts0 b2 length extra blk = some r) (hlg : r.lgXmit = true) :
+    r.blockVal = some (blockValue 0 1 r.blkSize) ∧ r.payload = 2 ^ (r.blkSize + 4) ∧ 2 ^ (r.blkSize + 4) < length ∧
+    r.blkSize ≤ b2 := by
+  unfold adlBody at h
+  dsimp only at h
+  by_cases h1 : adlAvail maxSize tokOpts0 tokLen < 16 ∧ ((length : Int) > adlAvail maxSize tokOpts0 tokLen ∨ blk.isSome)
+  · rw [if_pos h1] at h; cases h
+  · rw [if_neg h1] at h
+    by_cases h2 : (blk.isSome ∧ length > 2 ^ (b2 + 4)) ∨ (length : Int) > adlAvail maxSize tokOpts0 tokLen
+    · rw [if_pos h2] at h
+      -- the body is longer than one block of the size chosen
+      have hL : 2 ^ (b2 + 4) < length := by
+        rcases h2 with h2 | h2
+        · exact h2.2
+        · by_cases h16 : adlAvail maxSize tokOpts0 tokLen < 16
+          · exact (h1 ⟨h16, Or.inl h2⟩).elim
+          · have := hb2 (by omega)
+            omega
+      cases hsb : setupBlockB maxSize (tokOpts0 + extra) 0 b2 length with
+      | none => rw [hsb] at h; cases h
+      | some sb =>
+        rw [hsb] at h
+        unfold adlLgTail at h
+        dsimp only at h
+        have hvl : ∀ x, 1 ≤ optEncodeSize d (varLen x) := by
+          intro x; unfold optEncodeSize; omega
+        have hv1 := hvl (blockValue sb.num sb.m sb.aszx)
+        generalize hA : adlAvail maxSize (base + optEncodeSize d (varLen (blockValue sb.num sb.m sb.aszx)) + extra) tokLen = A at h
+        rw [adlAvail_eq] at hA
+        have hchunk := setup_chunk_le _ _ _ _ _ _ hsb
+        by_cases hred : A < ↑(2 ^ (b2 + 4) : Nat)
+        · rw [if_pos hred] at h
+          by_cases h16 : A < 16
+          · rw [if_pos h16] at h; cases h
+          · rw [if_neg h16] at h
+            have htk : tokOpts0 + extra ≤ maxSize := by omega
+            obtain ⟨q1, q2, q3, q4, q5, _⟩ := setup_sound maxSize (tokOpts0 + extra) 0 b2 length sb (by omega) htk
+              (by omega) hlen hsb
+            have hnum : sb.num = 0 := by
+              unfold blockOffset at q4
+              have hp : 0 < 2 ^ (sb.szx + 4) := Nat.two_pow_pos _
+              rw [Nat.zero_mul] at q4
+              rcases Nat.mul_eq_zero.mp q4 with hh | hh
+              · exact hh
+              · omega
+            have hm : sb.m = 1 := by
+              rw [q5, hnum]
+              unfold moreBit blockOffset
+              rw [← q3]
+              rw [if_pos (by omega)]
+            have hch := adlBlkSize_chunk A (by omega) (by omega)
+            generalize adlBlkSize A = b3 at *
+            obtain ⟨s1, s2, s3, s4, s5, s6⟩ := adlFinish_spec _ _ _ _ _ _ _ h
+            have hb3 : b3 < b2 := by
+              have : 2 ^ (b3 + 4) < 2 ^ (b2 + 4) := by omega
+              have := pow_lt_imp _ _ this
+              omega
+            have hbv : r.blockVal = some (blockValue 0 1 b3) := by
+              unfold adlFinish at h
+              split at h
+              · cases h
+              · cases h
+                simp only [hnum, hm, Nat.zero_mul, Nat.zero_mod]
+            rw [s2, s3]
+            refine ⟨hbv, ?_, by omega, by omega⟩
+            apply Nat.min_eq_left
+            omega
+        · rw [if_neg hred] at h
+          have htk : tokOpts0 + extra + 2 ^ (b2 + 4) ≤ maxSize := by omega
+          obtain ⟨n1, n2, n3⟩ := setup_noreduce maxSize (tokOpts0 + extra) b2 length sb (by omega) htk hsb
+          obtain ⟨q1, q2, q3, q4, q5, _⟩ := setup_sound maxSize (tokOpts0 + extra) 0 b2 length sb (by omega) (by omega)
+            (by omega) hlen hsb
+          have hnum : sb.num = 0 := by
+            unfold blockOffset at q4
+            have hp : 0 < 2 ^ (sb.szx + 4) := Nat.two_pow_pos _
+            rw [Nat.zero_mul] at q4
+            rcases Nat.mul_eq_zero.mp q4 with hh | hh
+            · exact hh
+            · omega
+          have hm : sb.m = 1 := by
+            rw [q5, hnum]
+            unfold moreBit blockOffset
+            rw [n1]
+            rw [if_pos (by omega)]
+          obtain ⟨s1, s2, s3, s4, s5, s6⟩ := adlFinish_spec _ _ _ _ _ _ _ h
+          have hbv : r.blockVal = some (blockValue 0 1 b2) := by
+            unfold adlFinish at h
+            split at h
+            · cases h
+            · cases h
+              simp only [hnum, hm, n2]
+          rw [s2, s3, n3]
+          refine ⟨hbv, ?_, hL, Nat.le_refl _⟩
+          apply Nat.min_eq_left
+          omega
+    · rw [if_neg h2] at h
+      unfold adlNoBlock at h
+      obtain ⟨s1, _⟩ := adlFinish_spec _ _ _ _ _ _ _ h
+      rw [s1] at hlg
+      cases hlg
+
+
+theorem adl_b2_le (A : Int) (b2 : Nat) (hb : b2 ≤ adlBlkSize A) (h16 : 16 ≤ A) (hA : A < 2 ^ 63) :
+    ((2 ^ (b2 + 4) : Nat) : Int) ≤ A := by
+  have hch := adlBlkSize_chunk A h16 hA
+  have : 2 ^ (b2 + 4) ≤ 2 ^ (adlBlkSize A + 4) := Nat.pow_le_pow_right (by decide) (by omega)
+  omega
+
+theorem blkOpt_le_43 (d x : Nat) : optEncodeSize d (varLen x) ≤ 43 := by
+  have hv : varLen x ≤ 4 := by
+    unfold varLen; split <;> (try split) <;> (try split) <;> (try split) <;> omega
+  unfold optEncodeSize
+  have e1 : ¬ (varLen x ≥ 13) := by omega
+  simp only [e1, if_false]
+  split <;> (try split) <;> omega
+
 end Coap.Block
